@@ -168,7 +168,12 @@ fn observe<T: BorshDeserialize + Ids>(script: &[u8]) -> String {
             drop(arr); // the caller's drop: logged into `post`
             (s, "returned", "-".to_string())
         }
-        Ok(Err(e)) => (events_s(&inside, base, None), "failed", crate::errs::kind_s(e.kind())),
+        Ok(Err(e)) => (
+            events_s(&inside, base, None),
+            "failed",
+            // kind and full text: the element decoder's own error must reach the caller unchanged
+            format!("{}:{}", crate::errs::kind_s(e.kind()), e.to_string().replace(' ', "_")),
+        ),
         Err(_) => (events_s(&inside, base, None), "panicked", "-".to_string()),
     };
     let post: Vec<Ev> = LOG.with(|l| l.borrow_mut().drain(..).collect());
